@@ -5,6 +5,21 @@ HERE = os.path.dirname(os.path.dirname(os.path.abspath(__file__)))
 ALL = ["C%02d" % i for i in range(1, 21)]
 
 CLAIMED = {
+    "C08": dict(
+        text="Theorem (Coq): for every modelled built-in class except UniquifyAllKmers, AvoidHairpins and the pure objective HarmonizeRCA, every well-formed instance, every window W inside the sequence and every pair of sequences differing only inside W: if S passes before and S localized to W passes after, S passes after; if localization yields nothing the score is unchanged. The model's localized()/evaluate() are tied to the code by vm_compute correspondence on all 16 classes (including the three not proved), and a direct oracle runs the property on the implementation. Partial: UniquifyAllKmers and AvoidHairpins are decided by the differential run + oracle only.",
+        note="Trusted: Coq kernel; hand model of evaluate/localized (Model/Specs.v) tied by correspondence; thresholds read as the decimals the user wrote (float caveat in DESIGN section 9); with_righthand=False variants are modelled but not claimed.",
+        technique="Coq proof (window-locality lemmas, codon-window arithmetic) + vm_compute correspondence + direct oracle",
+        design="6/C08"),
+    "C09": dict(
+        text="Theorem (Coq): for every modelled built-in class other than UniquifyAllKmers (excluded by the property) and AvoidHairpins (not proved), every well-formed instance, window W and pair of sequences differing only inside W, the score difference of the localized specification equals that of the full one (exact rationals), and is zero when localization yields nothing. Tied to the code by correspondence on all classes; direct oracle on the implementation.",
+        note="Trusted: as C08. Scores are exact rationals in the model; float sums compared within 1e-9 relative in the correspondence.",
+        technique="Coq proof (range-splitting of counts and sums, codon-window arithmetic) + vm_compute correspondence + direct oracle",
+        design="6/C09"),
+    "C14": dict(
+        text="Theorems (Coq): constrain_sequence rewrites only segments whose choice did not hold and is idempotent without draws; for EVERY type of specification and every evaluate/localized/heuristic function, resolve_constraints on a state where all constraints pass returns the same sequence and the same oracle state (no random draw), and optimize at declared best scores changes nothing. The solver model (Model/Solver.v) is tied to the code trace-exactly: same evaluate-call sequence, same numpy draws, same result, on recorded runs; the oracle checks sequence and numpy.random.get_state() before/after.",
+        note="Trusted: the recorder (class-level wrappers installed from outside, no source hooks); specification objects are interned by content; MatchTargetCodonUsage (whose evaluate draws) is outside the model.",
+        technique="Coq proof over an abstract-specification solver model + trace-exact correspondence with recorded runs",
+        design="6/C14"),
     "C15": dict(
         text="Theorems for every well-formed mutation space, member sequence and oracle stream of random draws: localized keeps exactly the choices meeting the window; all_variants is duplicate-free, is exactly the product of the multi-variant choices, starts with the current sequence and differs from it only inside the span; apply_random_mutations changes exactly min(n, #multi-choices) choices, each to a different allowed variant, and stays in the space; constrain_sequence lands in the space, touches only choices that did not hold, is idempotent and then draws nothing; size = product, 0 exactly when there is no multi-variant choice. Model tied to MutationSpace/MutationChoice by vm_compute correspondence on generated spaces with recorded numpy draws (requests and answers compared).",
         note="Trusted: numpy RandomState is an oracle (only its outputs are used; the model logs every request and the log is compared with the recorded one); Python set iteration is modelled by lists and sorting happens where the code sorts; float exp/log of space_size compared with 1e-9 relative tolerance in the harness.",
